@@ -54,7 +54,9 @@ def gen_cases(rng, n):
     for i in range(n):
         loss = LOSSES[i % len(LOSSES)]
         rnd = i // len(LOSSES)                          # how often this loss has been drawn so far
-        npix = int(rng.choice([1, 6, 12]))   # few distinct shapes: every new shape recompiles each primitive
+        # few distinct shapes (every new shape recompiles each primitive): vectors and square images (a loss sees 2-D arrays in a fit)
+        shape = [(1,), (6,), (12,), (3, 3), (4, 4)][rnd % 5]
+        npix = int(np.prod(shape))
         m = rng.uniform(0.2, 50, size=npix) if loss == "cash_loss" or rng.random() < 0.5 else rng.normal(0, 20, size=npix)
         r = np.exp(rng.uniform(np.log(0.05), np.log(20), size=npix))
         z = rng.normal(0, 1, size=npix) * rng.choice([0.0, 0.5, 1, 3, 8], size=npix)
@@ -76,7 +78,7 @@ def gen_cases(rng, n):
             d[~good] = rng.choice([np.nan, np.inf, -np.inf], size=int((~good).sum()))
         opts = dict(c=C_OPTS[(rnd // 2) % len(C_OPTS)] if loss in HAS_C and rnd % 2 == 1 else C_OPTS[0],
                     delta=DELTA_OPTS[(rnd // 2) % len(DELTA_OPTS)] if loss == "pseudo_huber_loss" and rnd % 2 == 1 else DELTA_OPTS[0])
-        cases.append(dict(loss=loss, m=m, d=d, r=r, good=good, nuis=nuis, opts=opts, scale=scale,
+        cases.append(dict(loss=loss, m=m, d=d, r=r, good=good, nuis=nuis, opts=opts, scale=scale, shape=list(shape),
                           suffix=str(rng.choice(["", "_a", "_7", "_F444W"]))))
     return cases
 
@@ -104,8 +106,9 @@ def real_eval(payload):
     for c in payload["cases"]:
         fn = getattr(L, c["loss"])
         sfx = c["suffix"]
-        m, d, r = (jnp.asarray(c[k], dtype=ft) for k in ("m", "d", "r"))
-        good = jnp.asarray(c["good"])
+        shp = tuple(c.get("shape") or (len(c["m"]),))
+        m, d, r = (jnp.asarray(c[k], dtype=ft).reshape(shp) for k in ("m", "d", "r"))
+        good = jnp.asarray(c["good"]).reshape(shp)
         subst = {k + sfx: jnp.asarray(v, dtype=ft) for k, v in c["nuis"].items()}
         kw = opt_kwargs(c)
         model = lambda: fn(m, d, r, good, suffix=sfx, **kw)  # noqa: E731
@@ -118,6 +121,8 @@ def real_eval(payload):
         for name, s in tr.items():
             if s["type"] == "sample":
                 lp = np.asarray(s["fn"].log_prob(s["value"]), dtype=np.float64)
+                if s["is_observed"]:
+                    lp = lp.reshape(-1)          # row-major, the order of the case's pixel list
                 sup = None
                 if not s["is_observed"]:
                     su = s["fn"].support
